@@ -80,4 +80,13 @@ func init() {
 		Bounds:  map[string]string{"quick": "every advertised algorithm x {RSA-OAEP-MGF1P, RSA-OAEP 1.1, RSA-1_5} x {no digest, empty, SHA1, SHA256, SHA512} x inline/detached x recipient certificate present/absent; CBC plaintext 0..47 bytes, padding 1..16 bytes with arbitrary filler; all 16 key configurations for the key source", "thorough": "same"},
 		Outside: []string{"AES / RSA / OAEP computations themselves (functional contracts only)", "orchestration twin (encrypted vs plaintext Response): see C07 when built"},
 	})
+	reg(&PropSpec{ID: "C15",
+		Harnesses: []HarnessSpec{
+			{Name: "VH_C15_authn_request", Replay: "native", Unwind: 2000},
+			{Name: "VH_C15_logout_request", Replay: "native", Unwind: 2000},
+			{Name: "VH_C15_logout_response", Replay: "native", Unwind: 2000},
+		},
+		Bounds:  map[string]string{"quick": "all configuration strings symbolic; 0..2 requested authentication contexts; flags on/off; the real etree construction code is executed", "thorough": "same"},
+		Outside: []string{"escaping on serialisation and re-parsing (etree WriteTo / encoding/xml): the tree is inspected in memory", "signed variants: C13"},
+	})
 }
